@@ -391,7 +391,7 @@ class Ctx:
             # only this property's harness files (cNN_*.go) plus unprefixed shared files: a harness of
             # another property that no longer compiles must not make this check inconclusive
             gos = [f for f in files if f.endswith(".go") and
-                   (not re.match(r"^c\d\d_", f) or f.startswith(self.prop.lower() + "_"))]
+                   (not re.match(r"^[a-z]\d\d_", f) or f.startswith(self.prop.lower() + "_"))]
             if not gos:
                 continue
             pkgdir = os.path.join(REPO, rel)
